@@ -14,6 +14,9 @@ import TraitsVerif.Lemmas.SetStep
 import TraitsVerif.Lemmas.PyLMapSet
 import TraitsVerif.Py.Dict
 import TraitsVerif.Generated.Mutators
+import TraitsVerif.Lemmas.PyLObj
+import TraitsVerif.Generated.CtorCopy
+import TraitsVerif.Model.CtorCopyAssumed
 namespace TraitsVerif.Props.C07
 open TraitsVerif TraitsVerif.Py TraitsVerif.Model.SetM
 open TraitsVerif.Py.PSet (Op WF Equiv ofList)
@@ -523,6 +526,61 @@ theorem C07_trait_value_needs_validation_without_owner :
       TSOSelf.live.afterDeepcopy (fun _ _ x => match x with | .int _ => .ok x | .str _ => .error .traitError) 0 (KAtom.str 7)
         = .ok (KAtom.str 7) := by
   constructor <;> rfl
+
+/-! ### Tie to the source: the notifier of a `Set` trait's value -/
+
+open TraitsVerif.Model.PyLO TraitsVerif.Model.Obj in
+/-- **C07_notifier_gate_is_source.**  The modelled delivery gate of
+`TraitSetObject.notifier` (`Model/ContainerObject.lean`) is the interpretation
+of its source as translated by `translate/pylobj.py`, for every state of `self`;
+and so is the item validator in the richer state space of that model (which
+agrees with `TraitSetObject.validator` above). -/
+theorem C07_notifier_gate_is_source {β : Type} (σ : OSelf) (inner : Bool → Callback β β) :
+    runNotifier Generated.Obj.traitSetObjectNotifier σ = setNotifier σ ∧
+    runValidator Generated.Obj.traitSetObjectItemValidator .item σ inner = setItemValidator σ inner ∧
+    setItemValidator σ inner
+      = TraitSetObject.validator ⟨σ.object, (traitOrNone σ).map (·.itemNone)⟩ inner := by
+  refine ⟨Lemmas.PyLObj.set_notifier_is_source σ, ?_, ?_⟩
+  · funext n x; exact Lemmas.PyLObj.set_item_validator_is_source σ inner n x
+  · funext n x
+    obtain ⟨tr, ob, ni, cu⟩ := σ
+    rcases tr with _ | _ | t <;> rcases ob with _ | _ <;> simp [setItemValidator, TraitSetObject.validator, traitOrNone]
+
+open TraitsVerif.Model.PyLO TraitsVerif.Model.Obj in
+/-- **C07_items_event_gate.**  The `<name>_items` event of a `Set` trait is
+delivered — once, as `TraitSetEvent(removed=removed, added=added)` built from the
+notifier's own arguments in that order — exactly when the trait has an items
+event, the owner is alive and the set is still the owner's current value. -/
+theorem C07_items_event_gate (σ : OSelf) (ds : List Delivery) :
+    setNotifier σ = .ok ds →
+      (ds = [⟨"TraitSetEvent", [("removed", 1), ("added", 2)]⟩] ∧
+        σ.nameItems = true ∧ σ.object = some true ∧ σ.current = true ∧ ∃ t, σ.trait = some (some t)) ∨
+      (ds = [] ∧ (σ.nameItems = false ∨ σ.object = some false ∨ σ.current = false)) := by
+  obtain ⟨tr, ob, ni, cu⟩ := σ
+  rcases tr with _ | _ | t <;> rcases ob with _ | _ | _ <;> cases ni <;> cases cu <;>
+    simp [setNotifier, deliver, setDelivery] <;> intro h <;> simp [← h]
+
+open TraitsVerif.Model.PyLO TraitsVerif.Model.Obj in
+/-- Non-vacuity: live value with / without items event, replaced value, collected owner. -/
+example :
+    runNotifier Generated.Obj.traitSetObjectNotifier (OSelf.live {} true) = .ok [setDelivery] ∧
+    runNotifier Generated.Obj.traitSetObjectNotifier (OSelf.live {} false) = .ok [] ∧
+    runNotifier Generated.Obj.traitSetObjectNotifier (OSelf.live {} true).detached = .ok [] ∧
+    runNotifier Generated.Obj.traitSetObjectNotifier (OSelf.live {} true).orphaned = .ok [] := by
+  refine ⟨?_, ?_, ?_, ?_⟩ <;> first | rfl | decide
+
+/-- **C07_copy_is_source.**  The copy / pickle methods of `TraitSet` and
+`TraitSetObject` are, statement for statement, the ones `TraitSet.copyOp` /
+`TraitSetObject.copyOp` (and so `C07_copy`, `C07_trait_value_still_validates`)
+transcribe: `__deepcopy__` calls the constructor — which validates — with a deep
+copy of `self.item_validator` / with `self.trait` and no owner;
+`__getstate__` drops `notifiers` (and `object`, `trait`), keeps
+`item_validator`; `__setstate__` restores `notifiers`; `__reduce_ex__`
+rebuilds from `list(self)`. -/
+theorem C07_copy_is_source :
+    Generated.CtorCopy.traitSetCtorCopy = Model.CtorCopyAssumed.traitSetCtorCopy ∧
+    Generated.CtorCopy.traitSetObjectCtorCopy = Model.CtorCopyAssumed.traitSetObjectCtorCopy := by
+  first | rfl | exact ⟨rfl, rfl⟩
 
 /-! ### Tie to the source: the mutators that exist are the mutators modelled -/
 
